@@ -460,6 +460,98 @@ def c14(ctx):
     ctx.assumptions += ["directory operations are ordered and durable; no reordering inside a file beyond prefix truncation"]
 
 
+# --------------------------------------------------------------------------- C13
+def wm_exhaustive(maxlen, nidx=3):
+    """All call sequences up to maxlen over Begin/Done of nidx indices and WaitForMark(1): one
+    client per call (so that waits can stay parked), DoneUntil observed after every call."""
+    import itertools
+    alpha = [("b", i) for i in range(nidx)] + [("d", i) for i in range(nidx)] + [("w", 1)]
+    scen = []
+    for n in range(1, maxlen + 1):
+        for seq in itertools.product(alpha, repeat=n):
+            calls = [[{"kind": k, "ts": t}, {"kind": "o", "ts": 0}] for k, t in seq]
+            scen.append(dict(id="wm-ex-" + "".join(k + str(t) for k, t in seq), mode="seq", procs=n, nidx=nidx,
+                             calls=calls, seed=len(scen)))
+    return scen
+
+
+def judge_wm(ctx, outdir, what):
+    summ = json.load(open(os.path.join(outdir, "summary.json")))
+    cfg = tlc.fill("TraceWatermark.cfg.tmpl", PROCS=", ".join(map(str, range(1, summ["procs"] + 1))),
+                   IDX=", ".join(map(str, range(0, summ["nidx"]))))
+    tp = os.path.join(outdir, "traces.ndjson")
+    acc, rej = ctx.validate_batch(tp, summ, validator=lambda pth, to: tlc.validate_trace("TraceWatermark", cfg, pth, timeout=to))
+    for r in summ["results"]:
+        if r.get("stuck"):
+            p = ctx.save_replay("%s-stuck-%s.json" % (what, r["id"]), r)
+            ctx.violation(p, "watermark scenario %s did not quiesce: %s" % (r["id"], r["stuck"]), match={"kind": "stuck"})
+    for rj in rej:
+        i = rj["index"]
+        sc = summ["scenarios"][i]
+        lines = ctx.trace_lines(tp, summ, i)
+        name = "%s-%s" % (what, sc["id"])
+        rp = ctx.save_replay(name + ".wmtrace.ndjson", lines)
+        ctx.save_replay(name + ".meta.json", dict(procs=summ["procs"], nidx=summ["nidx"], scenario=sc,
+                                                  rejected_at=rj["rel"], event=rj["event"]))
+        ctx.violation(rp, "Watermark.tla rejects the recorded execution of scenario %s at event %d: %s" % (
+            sc["id"], rj["rel"], json.dumps(rj["event"])), match={"kind": "trace"})
+    if summ["scenarios"]:
+        ctx.sample(dict(scenario=summ["scenarios"][len(summ["scenarios"]) // 2], result=summ["results"][len(summ["results"]) // 2]))
+    nontriv = sum(1 for r in summ["results"] if r["final_du"] > 0 or r["waits"] > 0)
+    return dict(traces=summ["traces"], events=summ["events"], accepted=acc, nontrivial=nontriv)
+
+
+@check("C13")
+def c13(ctx):
+    drv = ctx.build()
+    models.run_family(ctx, "wm")
+    total = dict(traces=0, events=0, accepted=0, nontrivial=0)
+    # (1) exhaustive small sequences, replayed on the real WaterMark
+    scen = wm_exhaustive(3 if ctx.quick else 4)
+    chunks = [scen[i::8] for i in range(8)]
+
+    def ex(i):
+        out = os.path.join(ctx.scratch, "wm-ex-%d" % i)
+        os.makedirs(out, exist_ok=True)
+        sf = os.path.join(out, "scen.ndjson")
+        with open(sf, "w") as fh:
+            for sc in chunks[i]:
+                fh.write(json.dumps(sc) + "\n")
+        rc, o = ctx.drv(drv, ["wm", "-scenarios", sf, "-out", out, "-par", 8], timeout=1200)
+        if rc != 0:
+            raise Machinery("wm driver failed: " + o[-1500:])
+        return judge_wm(ctx, out, "c13ex")
+
+    # (2) random longer sequences and (3) concurrent drivers
+    def rnd(job):
+        mode, i, n = job
+        out = os.path.join(ctx.scratch, "wm-%s-%d" % (mode, i))
+        rc, o = ctx.drv(drv, ["wm", "-seed", ctx.seed * 100 + i, "-n", n, "-mode", mode, "-out", out, "-par", 8],
+                        timeout=1200)
+        if rc != 0:
+            hf = common.hard_failures(o)
+            if hf:
+                p = ctx.save_replay("c13-%s-%d.txt" % (hf[0][0], i), [hf[0][1]])
+                ctx.violation(p, "%s in pkg/watermark: %s" % hf[0], match={"kind": hf[0][0]})
+                return dict(traces=0, events=0, accepted=0, nontrivial=0)
+            raise Machinery("wm driver failed: " + o[-1500:])
+        return judge_wm(ctx, out, "c13" + mode)
+
+    n = 60 if ctx.quick else 500
+    jobs = [("seq", i, n) for i in range(4)] + [("conc", 10 + i, n) for i in range(4)]
+    for st in ctx.par(ex, range(8), workers=8) + ctx.par(rnd, jobs, workers=8):
+        for k in total:
+            total[k] += st[k]
+    total["exhaustive_sequences"] = len(scen)
+    std_cov(ctx, total, "every call sequence of length <= %d over Begin/Done of 3 indices and WaitForMark, replayed on "
+                        "the real WaterMark with DoneUntil observed after every call; random longer sequences (repeated "
+                        "indices, out-of-order completion, Done without Begin); concurrent drivers (2-4 goroutines). "
+                        "Each recorded execution is validated by TLC against Watermark.tla with the channel send and "
+                        "the consumer steps as silent steps; non-trivial = the mark moved or a wait was involved"
+                        % (3 if ctx.quick else 4))
+    ctx.cov["exhaustive"] = False
+
+
 # --------------------------------------------------------------------------- replay
 def replay(ctx, path):
     """Re-judges a saved replay file."""
@@ -473,6 +565,17 @@ def replay(ctx, path):
             print("  rejected at event %d: %s" % (rej[0]["rel"], json.dumps(rej[0]["event"])))
             return 1
         print("replay accepted (%d events)" % n)
+        return 0
+    if path.endswith(".wmtrace.ndjson"):
+        meta = json.load(open(path.replace(".wmtrace.ndjson", ".meta.json")))
+        cfg = tlc.fill("TraceWatermark.cfg.tmpl", PROCS=", ".join(map(str, range(1, meta["procs"] + 1))),
+                       IDX=", ".join(map(str, range(0, meta["nidx"]))))
+        r = tlc.validate_trace("TraceWatermark", cfg, path)
+        if not r["accepted"]:
+            print("VIOLATION property=%s replay=%s" % (ctx.id, path))
+            print("  rejected at event %d" % r["highwater"])
+            return 1
+        print("replay accepted")
         return 0
     print(open(path).read()[:5000])
     return 0
